@@ -867,9 +867,57 @@ def route_uses(ctx, n, root):
         sys.modules.pop(modname, None)
 
 
+def route_shared_context(ctx, n, root):
+    """one context (a dict with placeholders at several depths, or a prepared Context object) handed to two Configs with DIFFERENT
+    global_vars: each config sees its own substitution in the context's values, and the caller's context keeps its placeholders"""
+    import copy
+    from taskchain import Config, Context
+    for i in range(n):
+        rng = ctx.rng('shared-context', i)
+        leaf = rng.choice(['{V}/a', 'x{V}', '{V}', '{V}{W}', 'plain', '{UNDEF}/{V}'])
+        cdict = {'p1': leaf, 'nested': {'k': [leaf, {'deep': leaf}], 'n': 1}, 'lst': [leaf, [leaf]]}
+        if rng.random() < 0.5:
+            cdict['for_namespaces'] = {'ns': {'p2': [leaf, {'d': leaf}]}}
+        snapshot = copy.deepcopy(cdict)
+        as_object = rng.random() < 0.35
+        given = Context.prepare_context(copy.deepcopy(cdict)) if as_object else cdict
+        gvs = [{'V': 'v1', 'W': 'w1'}, {'V': 'v2', 'W': 'w2'}]
+        ns = rng.choice([None, 'ns'])
+        case = {'route': 'shared context', 'leaf': leaf, 'context': 'object' if as_object else 'dict', 'namespace': ns,
+                'for_namespaces': 'for_namespaces' in cdict}
+        ctx.case(case); ctx.count('shared-context')
+        cfgs = []
+        try:
+            for gv in gvs:
+                cfgs.append(Config(root / f'sc{i}', name='c', data={'own': leaf}, context=given, global_vars=gv, namespace=ns))
+        except Exception as e:      # noqa
+            ctx.fail('a config with a shared context could not be built', case, f'{type(e).__name__}: {e}'[:200]); continue
+        for gv, cfg in zip(gvs, cfgs):
+            look = gv.get
+            exp_leaf, _ = ref_subst(leaf, look)
+            def texts(v):
+                if isinstance(v, str):
+                    return str.__str__(v)
+                if isinstance(v, list):
+                    return [texts(x) for x in v]
+                if isinstance(v, dict):
+                    return {k: texts(x) for k, x in v.items()}
+                return v
+            got = {k: texts(cfg.data.get(k)) for k in ('own', 'p1', 'nested', 'lst')}
+            exp = {'own': exp_leaf, 'p1': exp_leaf, 'nested': {'k': [exp_leaf, {'deep': exp_leaf}], 'n': 1}, 'lst': [exp_leaf, [exp_leaf]]}
+            if ns == 'ns' and 'for_namespaces' in cdict:
+                got['p2'] = texts(cfg.data.get('p2')); exp['p2'] = [exp_leaf, {'d': exp_leaf}]
+            if got != exp:
+                ctx.fail('a config built with a shared context does not carry its own substitution', case, {'global_vars': gv, 'got': got, 'expected': exp})
+                break
+        if not as_object and cdict != snapshot:
+            ctx.fail("building a config rewrote the caller's context dict (placeholders substituted in place)", case, {'after': str(cdict)[:300]})
+
+
 def run(ctx):
     quiet()
     root = ctx.tmpdir()
+    route_shared_context(ctx, ctx.n(150, 1200), root)
     route_direct(ctx, ctx.n(5000, 40000))
     route_config(ctx, ctx.n(1500, 12000), root / 'cfg')
     route_chain(ctx, ctx.n(120, 1000), root)
